@@ -84,16 +84,23 @@ func (r restorer) restore() {
 func (p *pp) handleSpecialValues(
 	value reflect.Value, t reflect.Type, verb rune, depth int,
 ) (handled bool) {
+	if value.Kind() == reflect.Interface && !value.IsNil() {
+		// Look through interface-typed slots (slice elements, map
+		// values), like getField() does for struct fields.
+		value = value.Elem()
+		t = value.Type()
+	}
+
 	switch t {
 	case safeWrapperType:
 		handled = true
 		defer p.startSafeOverride().restore()
-		p.printValue(value.Field(0), verb, depth+1)
+		p.printValue(wrappedValue(value), verb, depth+1)
 
 	case unsafeWrapperType:
 		handled = true
 		defer p.startUnsafeOverride().restore()
-		p.printValue(value.Field(0), verb, depth+1)
+		p.printValue(wrappedValue(value), verb, depth+1)
 
 	case redactableStringType:
 		handled = true
@@ -118,6 +125,27 @@ func (p *pp) invalidateWrap(verb rune) {
 		p.wrappedErr = nil
 		p.wrapErrs = false
 	}
+}
+
+// wrappedValue returns the value enclosed in a Safe() or Unsafe()
+// wrapper. Whenever possible it is retrieved with the wrapper's
+// accessor and not by reflection on its (unexported) field, so that
+// the formatting methods of the enclosed value remain usable.
+func wrappedValue(wrapper reflect.Value) reflect.Value {
+	if wrapper.CanInterface() {
+		var inner interface{}
+		switch v := wrapper.Interface().(type) {
+		case rwrap.SafeWrapper:
+			inner = v.GetValue()
+		case rwrap.UnsafeWrap:
+			inner = v.GetValue()
+		}
+		if inner != nil {
+			return reflect.ValueOf(inner)
+		}
+	}
+	// A nil interface prints as such.
+	return wrapper.Field(0)
 }
 
 // Sprintfn produces a RedactableString using the provided
